@@ -1243,7 +1243,7 @@ def error_value_stage(res, tier, prop):
 
 def check_C13(tier):
     res = Result('C13', tier)
-    framework(res, ['C13_construct_matches_table', 'C13_decision_determines_item', 'C13_skip_transparent', 'C13_bump_extends_and_excludes'])
+    framework(res, ['C13_construct_matches_table', 'C13_decision_determines_item', 'C13_skip_transparent', 'C13_bump_extends_and_excludes', 'C13_inline_body_complete', 'C13_old_inline_body_drops_tokens'])
     fss = ['tc', 'sm']
     sets = ce.compiled_sets(tier, fss)
     drv = build.extraction_build()
